@@ -145,8 +145,10 @@ class Recorder:
         (e.g. a structural run).  ok=False is a violation already reproduced by `detail`.
         An exception met while executing the code symbolically ("…/runs") is only a violation if a replay on the
         real library confirms it; without a replay it is a harness error (the engine may simply lack an encoding)."""
+        ungated = False
         if reproduced == "auto":
             reproduced = None if (label.endswith("/runs") or (key or "").endswith("raises")) else True
+            ungated = reproduced is True  # no replay attached by the section: finish() asks the property's own replay before a VIOLATION is printed
         rec = {
             "label": label,
             "section": self.section,
@@ -160,6 +162,8 @@ class Recorder:
             rec["cex"] = smt.jsonable(detail or {})
             rec["reproduced"] = reproduced
             rec["replay_detail"] = smt.jsonable(detail or {})
+            if ungated:
+                rec["ungated"] = True
         self.records.append(rec)
         if self.stop_on_violation and not ok:
             raise StopSection()
@@ -286,6 +290,54 @@ def run_check(pid: str, tier: str, sections, *, explanation: str, bounds: dict, 
     return finish(pid, tier, seed, results, explanation, bounds, trusted_base, level, t0, outside, mres)
 
 
+def _gate_structural_facts(pid, violated):
+    """A structural fact that failed without a replay of its own (fact(..) called without reproduced=) is confirmed with the replay the property registers for
+    that class of violation (checks.<id>.replay, the function behind `./check <ID> --replay <file>`; the owner is read from the key prefix, so delegated
+    sections are replayed by the check they come from).  Not reproduced -> harness error (exit 3), never a VIOLATION line."""
+    import contextlib
+    import importlib
+    import io
+    import re
+
+    if os.environ.get("SYMX_MUTANT_RUN"):
+        return
+    cache = {}
+    for r in violated:
+        if not r.get("ungated") or r.get("reproduced") is not True:
+            continue
+        key = r["key"]
+        if key not in cache:
+            m = re.match(r"(C\d\d)/", key)
+            owner = (m.group(1) if m else pid).lower()
+            verdict = True
+            try:
+                mod = importlib.import_module(f"checks.{owner}")
+                buf = io.StringIO()
+                with contextlib.redirect_stdout(buf):
+                    rc = mod.replay({"key": key, "label": r["label"], "cex": r.get("cex"), "replay_detail": r.get("replay_detail")})
+                verdict = True if rc == 1 else False
+                cache[key + "#out"] = buf.getvalue()[-600:]
+                if not verdict:
+                    # any other real-library oracle of the same property that shows a misbehaviour confirms that the tree is defective
+                    for fn in getattr(mod, "ALL_REPLAYS", []):
+                        try:
+                            with contextlib.redirect_stdout(buf):
+                                ok2, det2 = fn({})
+                        except Exception:  # noqa: BLE001
+                            continue
+                        if ok2 is True or ok2 == 1:
+                            verdict = True
+                            cache[key + "#out"] = str(det2)[:600]
+                            break
+            except BaseException as e:  # noqa: BLE001  the replay machinery itself failed: undecided
+                verdict = None
+                cache[key + "#out"] = f"replay raised {type(e).__name__}: {e}"
+            cache[key] = verdict
+        r["reproduced"] = cache[key]
+        if cache[key] is not True:
+            r["replay_detail"] = {"fact": r.get("replay_detail"), "property_replay": cache.get(key + "#out")}
+
+
 def finish(pid, tier, seed, results, explanation, bounds, trusted_base, level, t0, outside=None, mres=None):
     known = [k for k in load_known_findings() if k.get("property") == pid]
     records = [r for res in results for r in res["records"]]
@@ -311,6 +363,7 @@ def finish(pid, tier, seed, results, explanation, bounds, trusted_base, level, t
     lines = []
     new_violations = []
     known_hits = []
+    _gate_structural_facts(pid, violated)
     confirmed_keys = {r["key"] for r in violated if r.get("reproduced") is True}
     for r in violated:
         k = next((kf for kf in known if kf.get("status", "open") == "open" and kf["key"] == r["key"]), None)
